@@ -106,8 +106,21 @@ func c01Slice(ns, svc, suffix string, ips []string, ready bool, gen int64) *disc
 func TestVerifC01(t *testing.T) {
 	out := vu.Open("C01")
 	out.ShardLen(8)
-	rng := vu.NewRng(out.Seed ^ 0xC01)
-	n := out.Count(150, 4000)
+	c01Histories(out, vu.NewRng(out.Seed^0xC01), out.Count(150, 4000), false)
+	out.Close("C01.Check", "")
+}
+
+// TestVerifC06Revoke: second part of the C06 check. Histories in which cross-namespace references (Route backends,
+// listener certificates, TLSRoute backends) lose their ReferenceGrant late: the long-lived controller must end
+// up exactly where a fresh one does (the effect of the grant is gone at the next reconciliation).
+func TestVerifC06Revoke(t *testing.T) {
+	out := vu.Open("C06")
+	out.ShardLen(8)
+	c01Histories(out, vu.NewRng(out.Seed^0xC06B), out.Count(60, 1500), true)
+	out.Close("C01.Check", "")
+}
+
+func c01Histories(out *vu.Out, rng *vu.Rng, n int, focusGrants bool) {
 	ctx := context.Background()
 	for i := 0; i < n; i++ {
 		r := rng.Fork()
@@ -115,12 +128,38 @@ func TestVerifC01(t *testing.T) {
 		seedA := r.Next()
 		a := vsGen(vu.NewRng(seedA), size)
 		b := vsGen(vu.NewRng(seedA), size) // same objects ...
-		c01Mutate(r, b)                    // ... some of them changed, removed or added
+		if focusGrants {
+			// cross-namespace backends and certificates with grants in A; B only loses grants
+			c01CrossNS(r, a)
+			c01CrossNS(vu.NewRng(seedA+1), b)
+			b = vsGen(vu.NewRng(seedA), size)
+			c01CrossNS(vu.NewRng(seedA+1), b)
+			a = vsGen(vu.NewRng(seedA), size)
+			c01CrossNS(vu.NewRng(seedA+1), a)
+			var keep []vsGrant
+			for _, g := range b.Grants {
+				if r.Chance(1, 3) {
+					keep = append(keep, g)
+				}
+			}
+			b.Grants = keep
+		} else {
+			c01Mutate(r, b) // ... some of them changed, removed or added
+		}
 		var flags []string
 		// TLS passthrough: a TLSRoute whose backend lives in another namespace under a ReferenceGrant (C06 revocation)
 		extraA, extraB := c01Extras(r, a, &flags)
 		objsA := append(a.Objects(), extraA...)
 		objsB := append(b.Objects(), extraB...)
+		// TLS passthrough with a cross-namespace backend under a ReferenceGrant that is revoked (or not) in B
+		if r.Chance(1, 2) || focusGrants {
+			revoke := r.Bool() || focusGrants
+			objsA = c01Passthrough(objsA, a.Gateways[0].NS, true)
+			objsB = c01Passthrough(objsB, b.Gateways[0].NS, !revoke)
+			if revoke {
+				flags = append(flags, "grant-revoked-for-tlsroute")
+			}
+		}
 		byKey := func(objs []client.Object) map[string]client.Object {
 			m := map[string]client.Object{}
 			for _, o := range objs {
@@ -292,7 +331,30 @@ func TestVerifC01(t *testing.T) {
 		out.Tally("ops", strconv.Itoa(len(humanOps)/10*10))
 		out.Tally("restarts", strconv.Itoa(cw.restarts))
 	}
-	out.Close("C01.Check", "")
+}
+
+// c01CrossNS makes every route use a backend in another namespace and grants it.
+func c01CrossNS(r *vu.Rng, c *vsCluster) {
+	for i := range c.Routes {
+		rt := &c.Routes[i]
+		other := "team-b"
+		if rt.NS == other {
+			other = "team-a"
+		}
+		kind := "HTTPRoute"
+		if rt.GRPC {
+			kind = "GRPCRoute"
+		}
+		for j := range rt.Rules {
+			for k := range rt.Rules[j].Backends {
+				if r.Chance(1, 2) {
+					rt.Rules[j].Backends[k].NS = vsPtr(other)
+				}
+			}
+		}
+		c.Grants = append(c.Grants, vsGrant{NS: other, Name: "xg-" + rt.Name, From: []vsGrantFrom{{Group: "gateway.networking.k8s.io", Kind: kind, NS: rt.NS}},
+			To: []vsGrantTo{{Group: "", Kind: "Service"}}})
+	}
 }
 
 // c01Mutate changes a copy of the state: some objects go, some change, some appear.
@@ -355,6 +417,36 @@ func c01Mutate(r *vu.Rng, c *vsCluster) {
 	if r.Chance(1, 3) && len(c.BTPs) > 0 {
 		c.BTPs = c.BTPs[1:]
 	}
+}
+
+// c01Passthrough adds a TLS passthrough listener to the first Gateway, a TLSRoute with a backend in namespace team-b
+// and (optionally) the ReferenceGrant that permits it.
+func c01Passthrough(objs []client.Object, gwNS string, withGrant bool) []client.Object {
+	pass := gatewayv1.TLSModePassthrough
+	all := gatewayv1.NamespacesFromAll
+	for _, o := range objs {
+		if gw, ok := o.(*gatewayv1.Gateway); ok && gw.Name == "gw" {
+			gw.Spec.Listeners = append(gw.Spec.Listeners, gatewayv1.Listener{Name: "tls-pass", Port: 9443, Protocol: gatewayv1.TLSProtocolType,
+				Hostname: helpers.GetPointer[gatewayv1.Hostname]("tls.example.com"), TLS: &gatewayv1.GatewayTLSConfig{Mode: &pass},
+				AllowedRoutes: &gatewayv1.AllowedRoutes{Namespaces: &gatewayv1.RouteNamespaces{From: &all}}})
+		}
+	}
+	backendNS := "team-b"
+	if gwNS == backendNS {
+		backendNS = "team-a"
+	}
+	objs = append(objs, &v1alpha2.TLSRoute{ObjectMeta: metav1.ObjectMeta{Namespace: gwNS, Name: "tlsr", CreationTimestamp: vsTime(1)},
+		Spec: v1alpha2.TLSRouteSpec{CommonRouteSpec: v1alpha2.CommonRouteSpec{ParentRefs: []gatewayv1.ParentReference{{Name: "gw", SectionName: helpers.GetPointer[gatewayv1.SectionName]("tls-pass")}}},
+			Hostnames: []v1alpha2.Hostname{"tls.example.com"},
+			Rules:     []v1alpha2.TLSRouteRule{{BackendRefs: []v1alpha2.BackendRef{vsBackendObj(vsBackend{NS: &backendNS, Name: "svc-tls", Port: 443, Weight: 1})}}}}})
+	objs = append(objs, &apiv1.Service{ObjectMeta: metav1.ObjectMeta{Namespace: backendNS, Name: "svc-tls"},
+		Spec: apiv1.ServiceSpec{IPFamilies: []apiv1.IPFamily{apiv1.IPv4Protocol}, Ports: []apiv1.ServicePort{{Name: "p80", Port: 443}}}})
+	objs = append(objs, c01Slice(backendNS, "svc-tls", "x1", []string{"10.1.1.1"}, true, 1))
+	if withGrant {
+		objs = append(objs, vsGrant{NS: backendNS, Name: "grant-tls", From: []vsGrantFrom{{Group: "gateway.networking.k8s.io", Kind: "TLSRoute", NS: gwNS}},
+			To: []vsGrantTo{{Group: "", Kind: "Service"}}}.obj())
+	}
+	return objs
 }
 
 // c01Extras: typed objects outside the abstract state: EndpointSlices of the services, a TLS passthrough listener
